@@ -105,6 +105,8 @@ PROPS = {
         "assumptions": HIST_ASSUME,
         "parts": {
             "iso": {"bin": "verifh", "run": "TestC12Iso", "checks": {"quick": 300, "thorough": 32000}, "shards": {"quick": 4, "thorough": 16}},
+            "id-static": {"bin": "omni", "run": "TestC12Static", "checks": {"quick": 2000, "thorough": 100000}, "shards": {"quick": 1, "thorough": 8}},
+            "id-main": {"bin": "omni", "run": "TestC12ViaMain", "checks": {"quick": 3, "thorough": 96}, "shards": {"quick": 1, "thorough": 8}, "shrinktime": "90s"},
         },
     },
     "C11": {
@@ -127,6 +129,7 @@ PROPS = {
         "assumptions": HIST_ASSUME,
         "parts": {
             "seq": {"bin": "bastion", "run": "TestC10Seq", "checks": {"quick": 500, "thorough": 48000}, "shards": {"quick": 4, "thorough": 16}},
+            "e2e": {"bin": "bastion", "run": "TestC10E2E", "checks": {"quick": 40, "thorough": 4000}, "shards": {"quick": 1, "thorough": 8}},
             "rate": {"bin": "bastion", "run": "TestC10Rate", "checks": {"quick": 150, "thorough": 4000}, "shards": {"quick": 1, "thorough": 4}},
             "known": {"bin": "bastion", "run": "TestC10Known", "kind": "plain"},
         },
